@@ -91,15 +91,21 @@ func (f *fakeNC) reply(out string) (*nctypes.NetconfResponse, error) {
 	return nctypes.NewNetconfResponse(d), nil
 }
 
-func (f *fakeNC) Get(filter string) (*nctypes.NetconfResponse, error) { return f.reply(f.next("get", "-")) }
+func (f *fakeNC) Get(filter string) (*nctypes.NetconfResponse, error) {
+	return f.reply(f.next("get", "-"))
+}
 func (f *fakeNC) GetConfig(source string, filter string) (*nctypes.NetconfResponse, error) {
 	return f.reply(f.next("get-config", source))
 }
 func (f *fakeNC) EditConfig(tgt string, cfg string) (*nctypes.NetconfResponse, error) {
 	return f.reply(f.next("edit-config", tgt))
 }
-func (f *fakeNC) Lock(tgt string) (*nctypes.NetconfResponse, error)   { return f.reply(f.next("lock", tgt)) }
-func (f *fakeNC) Unlock(tgt string) (*nctypes.NetconfResponse, error) { return f.reply(f.next("unlock", tgt)) }
+func (f *fakeNC) Lock(tgt string) (*nctypes.NetconfResponse, error) {
+	return f.reply(f.next("lock", tgt))
+}
+func (f *fakeNC) Unlock(tgt string) (*nctypes.NetconfResponse, error) {
+	return f.reply(f.next("unlock", tgt))
+}
 func (f *fakeNC) Validate(src string) (*nctypes.NetconfResponse, error) {
 	return f.reply(f.next("validate", src))
 }
